@@ -73,12 +73,13 @@ func (w *Welder3) Root(i int) int { return w.find(i) }
 // Report3 summarises a triangle mesh.
 type Report3 struct {
 	Tris         int
-	Verts        int       // welded vertices
-	OpenEdges    int       // directed edges a->b (a!=b after welding) whose count differs from b->a
-	ExactDupTris int       // triangles with two exactly equal vertices
-	Volume       float64   // signed volume, positive = outward normals
-	Min, Max     v3.Vec    // bounds of all vertices
-	FirstOpen    [2]v3.Vec // an unmatched edge (for messages)
+	Verts        int         // welded vertices
+	OpenEdges    int         // directed edges a->b (a!=b after welding) whose count differs from b->a
+	ExactDupTris int         // triangles with two exactly equal vertices
+	Volume       float64     // signed volume, positive = outward normals
+	Min, Max     v3.Vec      // bounds of all vertices
+	FirstOpen    [2]v3.Vec   // an unmatched edge (for messages)
+	Open         [][2]v3.Vec // all unmatched directed edges (welded end points)
 	FirstDup     *sdf.Triangle3
 }
 
@@ -140,6 +141,7 @@ func Analyze3(ts []*sdf.Triangle3, tol float64) Report3 {
 				r.FirstOpen = [2]v3.Vec{w.Pts[e.a], w.Pts[e.b]}
 			}
 			r.OpenEdges++
+			r.Open = append(r.Open, [2]v3.Vec{w.Pts[e.a], w.Pts[e.b]})
 		}
 	}
 	return r
@@ -212,6 +214,7 @@ type Report2 struct {
 	Area       float64 // signed area enclosed (sum of cross products / 2)
 	Min, Max   v2.Vec
 	FirstOdd   v2.Vec
+	Odd        []v2.Vec // all welded points with odd degree
 }
 
 // Analyze2 welds endpoints at tol and computes the report.
@@ -266,6 +269,9 @@ func Analyze2(ls []*sdf.Line2, tol float64) Report2 {
 		}
 		if in[i] != out[i] {
 			r.Unbalanced++
+		}
+		if r.Degree[i]%2 != 0 {
+			r.Odd = append(r.Odd, w.Pts[i])
 		}
 	}
 	return r
